@@ -351,3 +351,6 @@ def sample_of(case):
 def known_match(case, failure, entry):
     # only directed probes (no_exclude) can carry these tags; generated cases exclude the triggers by construction
     return bool(case.get("no_exclude")) and entry["key"] in failure.get("known_keys", [])
+
+
+RULE += (" " + 'Histories also contain a fresh read-write session that switches the fill mode off and on again before its first write.')
